@@ -77,6 +77,10 @@ def shapes(tier):
         # shutdown plus one postponed gate (e.g. a worker job still running while the shutdown path flushes)
         dict(base, initial=INITIAL, deviations=2, window=6, script=[('block', payA)]),
     ]
+    # cache pressure: check_cache_size_loop asks for a flush while blocks are being advanced
+    for arg in (True, False):
+        out.append(dict(base, initial=INITIAL + [cbA], deviations=1, explore_startup=True, script=[],
+                        startup_triggers=[(('block:', 3), ('force_flush', arg))]))
     if tier == 'thorough':
         out += [
             dict(base, initial=INITIAL + [cbA], deviations=2, window=8, script=[('reorg', 1, [cbB, payAB])]),
